@@ -118,6 +118,22 @@ def main():
             open(os.path.join(dst, "demo", "verified_output_clean.txt"), "w").write(demo_clean[-20000:])
         if demo_patched is not None:
             open(os.path.join(dst, "demo", "verified_output_patched.txt"), "w").write(demo_patched[-20000:])
+    # keep the verdicts of earlier evaluations (suite run, other checks); newer check results replace older ones
+    old_meta = os.path.join(dst, "meta.json")
+    if os.path.exists(old_meta):
+        try:
+            prev = json.load(open(old_meta)).get("verification", {})
+            if "suite_failures" in prev and "suite_failures" not in verdict:
+                verdict["suite_failures"] = prev["suite_failures"]
+                verdict["suite_head"] = prev.get("suite_head", prev.get("head"))
+            merged = dict(prev.get("checks", {}))
+            for cid, r in verdict["checks"].items():
+                if cid in merged and merged[cid].get("caught") != r.get("caught"):
+                    r["earlier"] = {"caught": merged[cid].get("caught"), "head": prev.get("head")}
+                merged[cid] = r
+            verdict["checks"] = merged
+        except Exception:
+            pass
     meta["verification"] = verdict
     json.dump(meta, open(os.path.join(dst, "meta.json"), "w"), indent=1)
     print(json.dumps(verdict)[:1500])
